@@ -52,8 +52,29 @@ def extra_run(man, tier, seed):
         if not (abs(got - h) <= 1e-8 * max(1.0, abs(h))):
             failures.append({'site': 'Poisson.entropy', 'case': l, 'impl': repr(got), 'expected': f'-sum f ln f = {h!r}',
                              'observed': 'value' if got == got else 'nan', 'detail': 'entropy vs enumeration of the own pmf'})
+    # summaries at TINY valid parameters (1e-5 … 1e-9 in one positive field): closed forms that subtract nearly equal
+    # quantities (exp(s^2) - 1, 1 - p, …) lose their digits there; compared with the Spec in RELATIVE terms
+    from checklib import spec as S, gen as G
+    ents = []
+    for e in SPEC:
+        d = man['defs'].get(e['op'])
+        if d is None or not d['has_self'] or d.get('stub') or d['ptys']:
+            continue
+        dom = G.DOM.get(d['owner'])
+        if not isinstance(dom, dict):
+            continue
+        fields = [f for f, t in man['structs'][d['owner']]]
+        for f in [f for f in fields if dom.get(f) == 'pos']:
+            def mk(r_, owner=d['owner'], f=f, fields=fields):
+                v = list(G.struct_value(owner, man['structs'], r_))
+                v[fields.index(f)] = 10.0 ** r_.choice([-6, -7, -8, -9]) * r_.uniform(1, 9)
+                return tuple(v)
+            ents.append(dict(e, params=mk, rel=1e-6, abs_=1e-300))
+    tiny = S.spec_compare(man, ents, 3 if tier == 'quick' else 12, seed + 77)
+    failures += tiny['failures']
     return {'obligations': obligations, 'failures': failures,
-            'stats': {'evaluations': len(lines) + len(qs), 'distinct_nontrivial': len(set(lines)) + len(set(qs))}, 'samples': lines[:2]}
+            'stats': {'evaluations': len(lines) + len(qs) + tiny['stats']['evaluations'],
+                      'distinct_nontrivial': len(set(lines)) + len(set(qs)) + tiny['stats']['distinct_nontrivial']}, 'samples': lines[:2]}
 
 
 def _toks(f):
@@ -69,5 +90,6 @@ INPUT_CLASSES = {
     'p_boundary': lambda f: any(x in (0.0, 1.0) for x in _fl(f)),
     'gev_unbounded': lambda f: len(_fl(f)) >= 3 and _fl(f)[2] <= -1.0,
     'pareto_tiny_shape': lambda f: f.get('site', '').startswith('Pareto') and len(_fl(f)) >= 1 and 0 < _fl(f)[0] < 1.0 / 700.0,
+    'invgaussian_tiny_lambda': lambda f: f.get('site', '').startswith('InvGaussian') and len(_fl(f)) >= 2 and _fl(f)[0] > 0 and _fl(f)[1] / _fl(f)[0] < 1e-5,
     'gev_tiny_shape': lambda f: len(_fl(f)) >= 3 and abs(_fl(f)[2]) < 1e-6 and _fl(f)[2] != 0.0,
 }
